@@ -234,6 +234,33 @@ Theorem C12_stream_step_from_source :
       Stepper_gen.stream_step (Some id) sx st = StepperPre.Fail StepperPre.E_FAIL)).
 Proof. exact StepperProofs.stream_refusals_from_source. Qed.
 Print Assumptions C12_stream_step_from_source.
+
+(* Loading, from the source: load_obs and check_stream_header are regenerated from src/emu/stream.c (open / close and
+   load_stream_fd = fstat + mmap are primitives: the file is the stream's byte buffer, an empty file is refused, size :=
+   its length).  The generated load_obs is StreamDefs.load_obs: it fails exactly when the model gives a load error, and
+   otherwise leaves the stream with the model's initial cursor.  The three load refusals of this file re-derived for
+   the generated code. *)
+Theorem C12_stream_load_from_source :
+  (forall sx st id path, (id < length (StepperPre.streams st))%nat ->
+     let g := nth id (StepperPre.streams st) StepperPre.g0 in
+     blen (StepperPre.g_buf g) < 2 ^ 63 ->
+     match load_obs (StepperPre.g_buf g) (StepperPre.g_junk g) (negb (StepperPre.g_unsorted g =? 0)) with
+     | LoadErr _ => Stepper_gen.load_obs (Some id) path sx st = StepperPre.Fail StepperPre.E_FAIL
+     | Loaded s =>
+         exists g', Stepper_gen.load_obs (Some id) path sx st = StepperPre.Done tt (StepperPre.put st id g') /\
+           (StepperPre.g_cur g = None -> StepperPre.g_lastclock g = 0 -> StepperProofs.abs g' = s) /\
+           (StepperPre.g_cur g = None -> StepperPre.g_clkoff g = 0 -> StepperProofs.gwf id g') /\
+           StepperPre.g_buf g' = StepperPre.g_buf g /\ StepperPre.g_junk g' = StepperPre.g_junk g
+     end) /\
+  (forall sx st id path, (id < length (StepperPre.streams st))%nat ->
+     let g := nth id (StepperPre.streams st) StepperPre.g0 in
+     blen (StepperPre.g_buf g) < 2 ^ 63 ->
+     (blen (StepperPre.g_buf g) < 8 \/
+      (exists k, (k < 4)%nat /\ sbyte (StepperPre.g_buf g) (Z.of_nat k) <> nth k spec_magic 0) \/
+      sle (StepperPre.g_buf g) 4 4 <> 1) ->
+     Stepper_gen.load_obs (Some id) path sx st = StepperPre.Fail StepperPre.E_FAIL).
+Proof. exact (conj StepperProofs.load_obs_from_source StepperProofs.load_refusals_from_source). Qed.
+Print Assumptions C12_stream_load_from_source.
 (* ==== end of block (unit stepper) ==== *)
 
 (* ==== metadata gates from source (unit meta) ==== *)
